@@ -377,21 +377,21 @@ class ProcessRunner(Runner, ABC):
         # tasks that are now done logged before we report them as done.
         self._consume_log_queue()
         for future in done:
-            task = self.future_to_task[future]
+            # Forget the future before reporting it, so that a task is
+            # never reported twice if we are interrupted while the
+            # caller is handling it.
+            task = self.future_to_task.pop(future)
             if future.cancelled:
                 continue
             try:
                 task_result = future.result()
+            except KeyboardInterrupt:
+                raise
             except BaseException as ex:
                 yield (task, ex)
             else:
                 self.results_map[task] = task_result
                 yield (task, task_result.meta)
-        self.future_to_task = {
-            future: self.future_to_task[future]
-            for future in self.future_to_task
-            if future not in done
-        }
 
     def cancel(self) -> None:
         self.executor.cancel()
